@@ -4,13 +4,14 @@ contract may depend on what they return (tools/vx.py opaque_closures), as found 
 current count with it: a failed obligation in a function that now has MORE such closures is classified undecided (the installed Verus does not
 infer closure postconditions), never a violation.  Run after adding or changing a unit; the file is committed."""
 import sys, glob, json
-sys.path.insert(0, '/verif/tools')
+sys.path.insert(0, __import__('os').path.dirname(__import__('os').path.abspath(__file__)))
 import vx
 base = {}
-for t in sorted(glob.glob('/verif/contracts/*.vx')):
+for t in sorted(glob.glob(__import__('os').path.join(__import__('os').path.dirname(__import__('os').path.abspath(__file__)), '..', 'contracts', '*.vx'))):
     text, rep = vx.build(t)
-    d = {ex['item']: ex['opaque_closures'] for ex in rep['extracts'] if ex.get('opaque_closures')}
+    d = {ex['item']: dict(opaque=ex.get('opaque_closures', 0), bit_div=ex.get('bit_div_ops', [0, 0])) for ex in rep['extracts']
+         if ex.get('opaque_closures') or any(ex.get('bit_div_ops', [0, 0]))}
     if d:
         base[rep['unit']] = d
-json.dump(base, open('/verif/contracts/closures.json', 'w'), indent=1, sort_keys=True)
-print('closures.json:', sum(len(v) for v in base.values()), 'function(s) with opaque closures on the baseline tree')
+json.dump(base, open(__import__('os').path.join(__import__('os').path.dirname(__import__('os').path.abspath(__file__)), '..', 'contracts', 'closures.json'), 'w'), indent=1, sort_keys=True)
+print('closures.json:', sum(len(v) for v in base.values()), 'function(s) with closures without contract, bare loops, bit-level or division operators on the baseline tree')
